@@ -461,7 +461,9 @@ def write_replay(prop, payload):
 
 def write_evidence(prop, ev):
     # development runs against a scratch copy (VERIF_REPO) must not overwrite the evidence of /repo
-    d = os.path.join(ROOT, 'evidence') if REPO == '/repo' else os.path.join(ROOT, 'replays', 'dev-evidence')
+    # ... and neither must a run against /repo with a seeded patch applied (seeded/validate.py sets VERIF_DEV_EVIDENCE)
+    dev = REPO != '/repo' or os.environ.get('VERIF_DEV_EVIDENCE') == '1'
+    d = os.path.join(ROOT, 'replays', 'dev-evidence') if dev else os.path.join(ROOT, 'evidence')
     os.makedirs(d, exist_ok=True)
     json.dump(ev, open(os.path.join(d, f'{prop}.json'), 'w'), indent=1, default=str)
 
